@@ -16,6 +16,10 @@ class AsmError(Exception):
     pass
 
 
+class AsmTooBig(Exception):
+    """well-formed, but the image is too large to build here (not an error of the output)"""
+
+
 def parse_str(s, quote):
     """s: bytes starting after the opening quote -> (bytes, rest after closing quote)."""
     out = bytearray()
@@ -224,6 +228,8 @@ def assemble(lines, args=()):
     def add(sec, kind, val, size):
         if size < 0:
             raise AsmError('negative size')
+        if sizes[sec] + size > (1 << 26):
+            raise AsmTooBig('%s section larger than 64 MiB' % sec)
         items[sec].append((sizes[sec], kind, val))
         sizes[sec] += size
 
@@ -282,6 +288,8 @@ def assemble(lines, args=()):
                 n = eval_static(rest.strip(), W, argc, {})
                 if n < 0:
                     raise AsmError('.zero with negative size')
+                if n > (1 << 26):
+                    raise AsmTooBig('.zero %d' % n)
                 add(section, 'bytes', bytes(n), n)
             elif d == '.ascii':
                 rest = rest.strip()
